@@ -107,9 +107,15 @@ func c13Inputs(seed uint64, p c13Params, src string) []toolInput {
 		ins = append(ins, toolInput{Name: "head", Class: "bytes", Grammar: []byte(h), Flags: drawFlags(r, nil, false)})
 	}
 	for i := 0; i < p.lrrec; i++ {
-		in := genLRRecovery(r)
+		in := genLRRecoveryN(r, i)
 		in.Flags = drawFlags(r, in.Rules, r.chance(1, 3))
 		ins = append(ins, in)
+		if contains(in.Flags, "-optimize-grammar") {
+			// the optimizer removes or inlines rules; also as written
+			in2 := in
+			in2.Flags = removeArgs(in.Flags, "-optimize-grammar", 1)
+			ins = append(ins, in2)
+		}
 	}
 	for i := 0; i < p.bytes; i++ {
 		ins = append(ins, toolInput{Name: "bytes", Class: "bytes", Grammar: randomBytes(r), Flags: drawFlags(r, nil, false)})
